@@ -165,6 +165,10 @@ def sentinel_and_override_rules(ctx: Ctx, rs: RuleSet):
 
 def run(ctx: Ctx, rs: RuleSet, tier: str):
   sentinel_and_override_rules(ctx, rs)
+  # copies are unflatten(flatten(x)): what flatten leaves out of the
+  # metadata (a tag set, whatever its key kind) no copy has
+  from fdlstatic.rules import c14
+  c14.tags_in_metadata(ctx, rs)
   p = ctx.p
   rule = 'FRESHC.copy-containers'
   rs.declare(rule, 'every mutable internal of a copy is a fresh container of '
